@@ -390,7 +390,7 @@ class Gen:
         names = r.sample(["a", "b", "c", "id", "x1", "value"], 4)
         types = {n: {"k": "prim", "name": r.choice(["int", "long", "string", "double", "boolean"])} for n in names}
         br = []
-        as_error = self.error_records and not self.json_safe and r.random() < 0.3
+        as_error = self.error_records and not self.json_safe and r.random() < 0.5
         for k in range(r.choice([2, 3])):
             full = self.full(ns, self.fresh("Ov"))
             fields = [{"name": n, "type": dict(types[n]), "hasdef": False, "default": None, "aliases": []} for n in names[:2 + k]]
@@ -750,6 +750,9 @@ class Gen:
             if rb["k"] == "prim" and rb["name"] in ("long", "double") and "lt" not in rb and r.random() < 0.3 and \
                     any(self.resolve(x)["k"] == "prim" and self.resolve(x)["name"] == "int" for x in t["br"][:i]):
                 v = r.choice([2 ** 31, -2 ** 31 - 1])            # just outside int: the int branch ahead must not take it
+            if rb["k"] == "prim" and rb["name"] in ("int", "long", "float", "double") and "lt" not in rb and r.random() < 0.3 and \
+                    any(self.resolve(x)["k"] == "prim" and self.resolve(x)["name"] == "boolean" for x in t["br"][:i]):
+                v = r.choice([0, 1]) if rb["name"] in ("int", "long") else r.choice([0.0, 1.0, 0, 1])     # 1 == True, but 1 is not a boolean
             if hints and r.random() < 0.25:
                 nm = rb["full"] if rb["k"] in ("record", "enum", "fixed") else (rb["name"] if rb["k"] == "prim" else rb["k"])
                 return (nm, v)
